@@ -121,8 +121,9 @@ def mv_str(mva, delim='\n'):
 
 
 def _mv_not(out, inp):
+    unknown = (inp == UNKNOWN)  # taken before `out` is written: `out` may be `inp` itself
     np.bitwise_xor(inp, 0b11, out=out)  # this also exchanges UNASSIGNED <-> UNKNOWN
-    np.putmask(out, (inp == UNKNOWN), UNKNOWN)  # restore UNKNOWN
+    np.putmask(out, unknown, UNKNOWN)  # restore UNKNOWN
 
 
 def mv_not(x1 : np.ndarray, out=None):
@@ -135,6 +136,11 @@ def mv_not(x1 : np.ndarray, out=None):
     if out is None: out = np.empty(x1.shape, dtype=np.uint8)
     _mv_not(out, x1)
     return out
+
+
+def _unaliased(out, *ins):
+    """Returns the operands, copied where they share memory with ``out`` (``out`` is cleared before the operands are read)."""
+    return tuple(np.array(inp) if np.may_share_memory(out, inp) else inp for inp in ins)
 
 
 def _mv_or(out, *ins):
@@ -159,6 +165,7 @@ def mv_or(x1, x2, out=None):
     :return: A multi-valued array with the result.
     """
     if out is None: out = np.empty(np.broadcast(x1, x2).shape, dtype=np.uint8)
+    else: x1, x2 = _unaliased(out, x1, x2)
     _mv_or(out, x1, x2)
     return out
 
@@ -186,6 +193,7 @@ def mv_and(x1, x2, out=None):
     :return: A multi-valued array with the result.
     """
     if out is None: out = np.empty(np.broadcast(x1, x2).shape, dtype=np.uint8)
+    else: x1, x2 = _unaliased(out, x1, x2)
     _mv_and(out, x1, x2)
     return out
 
@@ -210,6 +218,7 @@ def mv_xor(x1, x2, out=None):
     :return: A multi-valued array with the result.
     """
     if out is None: out = np.empty(np.broadcast(x1, x2).shape, dtype=np.uint8)
+    else: x1, x2 = _unaliased(out, x1, x2)
     _mv_xor(out, x1, x2)
     return out
 
